@@ -221,6 +221,25 @@ def control_frames(chk, prog, fn, facts):
                 fact("R4.assembly", "text flag <- (first.opcode == Text)", any(core.is_variant(x, "Opcode", "Text") for x in dd), f"{[panics.short_desc(x) for x in dd]}")
 
 
+def probe_only_first(chk, prog, rid="R5.nothing_yet"):
+    """The non-blocking header probe is used only while no fragment has been collected: once a data frame has been
+    pushed, `nothing yet` must not be reportable (the collected fragments would be dropped and the rest of the
+    message delivered later as a separate, truncated message). Decided on the product of the CFG with the finite
+    store (first-frame flag, emptiness of the fragment vector)."""
+    from .. import absreach
+    fn = "humphrey_ws::message::Message::from_stream_nonblocking"
+    b = prog.bodies.get(fn)
+    if not b:
+        return
+    pushes = [blk for blk, t in b.calls_to(r"Vec::<T, A>::push$") if "frame::Frame" in " ".join(t.get("arg_tys", []))]
+    probes = [blk for blk, t in b.calls_to(r"frame::Frame::from_stream_nonblocking$")]
+    chk.floor("non-blocking header probe", len(probes), 1)
+    w = absreach.must_pass_from_entry(b, pushes, probes)
+    chk.ob(rid, fn, "after a fragment was collected the next frame is read with the blocking reader", w is None,
+           "a continuation frame is awaited with the non-blocking probe: if it has not arrived yet, `nothing yet` is returned, the fragments already "
+           "read are discarded and the tail later arrives as a separate truncated message", path=w)
+
+
 def closed_flag(chk, prog):
     ci = next(i for i, x in enumerate(prog.structs["humphrey_ws::stream::WebsocketStream"]["fields"]) if x["name"] == "closed")
     for fn in ("humphrey_ws::stream::WebsocketStream::recv", "humphrey_ws::stream::WebsocketStream::recv_nonblocking"):
@@ -272,6 +291,7 @@ def run(chk):
     for k in sorted(set(fa) | set(fb)):
         chk.ob("R5.twins", "Message::from_stream vs from_stream_nonblocking", f"{k[0]}: {k[1]}", fa.get(k) == fb.get(k), f"blocking: {fa.get(k)}, non-blocking: {fb.get(k)}")
     closed_flag(chk, prog)
+    probe_only_first(chk, prog)
     from . import c03
     bodies = panics.reach(prog, ["humphrey_ws::frame::Frame::from_stream_nonblocking"])
     before = len(chk.obligations)
